@@ -262,7 +262,13 @@ impl<'r> Gen<'r> {
             self.simple[i].name.clone()
         } else {
             self.next_file += 1;
-            format!("f{}", self.next_file)
+            // §526: every non-blank character token belongs to the name, whatever its category code
+            if self.rng.chance(1, 6) {
+                self.feat("input_name_with_special_category_character");
+                format!("f{}{}", self.rng.pick(&['_', '&', '$']), self.next_file)
+            } else {
+                format!("f{}", self.next_file)
+            }
         };
         let with_ext = self.rng.chance(1, 4);
         let b = if self.rng.chance(1, 5) { "  " } else { " " };
